@@ -369,6 +369,12 @@ pub fn finish(
             println!("INCONCLUSIVE property={} cannot write evidence: {}", ctx.id, e);
             return 2;
         }
+        if ctx.tier == Tier::Thorough {
+            // keep the last thorough evidence next to the per-change (quick) one
+            let td = ctx.verif_dir.join("evidence").join("thorough");
+            let _ = std::fs::create_dir_all(&td);
+            let _ = std::fs::write(td.join(format!("{}.json", ctx.id)), serde_json::to_string_pretty(&ev).unwrap());
+        }
     }
     for (sig, text) in &known_hits {
         println!("KNOWN-FINDING: property={} {} [{}]", ctx.id, text, sig);
